@@ -171,10 +171,13 @@ def run(chk, op=OP):
         chk.count("behaviours 4-5 nodes (simulated)", len(sim))
         behs += sim
     else:
-        extra = [b for b in generate(chk, op, 4) if len(b["nodes"]) == 4]
-        chk.count("behaviours=4 (exhaustive)", len(extra))
+        # all plans of <= 3 field instances x all completion orders are replayed in full; 4-node plans are no longer enumerated
+        # exhaustively (eleven outcomes x two modes per node: the behaviours alone exceed the memory of this sandbox) but sampled
+        chk.exhaustive = False
+        extra = [b for b in generate(chk, op, 4, simulate=12000, depth=26, label="GqlSched -simulate nodes<=4") if len(b["nodes"]) == 4][:200000]
+        chk.count("behaviours=4 (simulated)", len(extra))
         sim = generate(chk, op, 6, simulate=8000, depth=30, label="GqlSched -simulate nodes<=6")
-        sim = [b for b in sim if len(b["nodes"]) >= 5]
+        sim = [b for b in sim if len(b["nodes"]) >= 5][:150000]
         chk.count("behaviours 5-6 nodes (simulated)", len(sim))
         behs += extra + sim
     chk.count("behaviours replayed", len(behs))
